@@ -26,7 +26,7 @@ pub fn run(ctx: &Ctx) -> i32 {
         triples: ctx.tier == fw::Tier::Thorough,
         bom_prefixes: true,
         random_per_enc: ctx.n(3_000, 100_000),
-        profile: Profile { max_tokens: ctx.tier.pick(10, 40), small_caps_weight: 255, queries: false, modes: &hist::ALL_MODES, sinks: &hist::ALL_SINKS, bom_prefix_weight: 48 },
+        profile: Profile { max_tokens: ctx.tier.pick(10, 40), small_caps_weight: 255, queries: false, exact_queries: false, modes: &hist::ALL_MODES, sinks: &hist::ALL_SINKS, bom_prefix_weight: 48 },
         fills: vec![0xA5],
     };
     let mut st = dech::run_dec_check(ctx, &dc);
@@ -41,7 +41,7 @@ pub fn run(ctx: &Ctx) -> i32 {
             core_max_chars: ctx.tier.pick(2, 3),
             core_max_chars_2022: 3,
             random_per_enc: ctx.n(4_000, 100_000),
-            profile: EProfile { max_chars: ctx.tier.pick(12, 64), small_caps_weight: 255, queries: false, mappable_only: false },
+            profile: EProfile { max_chars: ctx.tier.pick(12, 64), small_caps_weight: 255, queries: false, exact_queries: false, mappable_only: false },
             mappable_only_when_repl: false,
         };
         st.merge(ench::run_enc_check(ctx, &ec));
